@@ -100,6 +100,8 @@ inductive Ev where
   | sn (s : CStr) (r : Option CStr)
   /-- unit style: `inc_lexically_normal (base, name)` gave `normal`; `inc_open` would try `tries` -/
   | inc (base name normal : CStr) (tries : List CStr)
+  /-- unit style: `set_inc_list (list)` stored these entries (`none` = slot dropped) -/
+  | il (list : CStr) (entries : List (Option CStr))
   /-- system style: object `who` calls a file efun (or a compile is started: `efun = "load"`) -/
   | call (efun : String) (who : String) (args : List CStr)
   /-- the master was asked `valid_write` (`w`) / `valid_read` and answered `v` -/
@@ -215,6 +217,11 @@ def approvalOf (w : Bool) (v : Verdict) (path : CStr) : Option Approval :=
 def okBy (fn : String) (w : Bool) (p : CStr) (a : Approval) : Bool :=
   specLegal a.path && covers fn a.path p && (if w then a.w else (!a.w || fn == "stat"))
 
+/-- a stored include directory that is empty, absolute or has a ".." component -/
+def badIncEntry : Option CStr → Bool
+  | some d => !safe d || d = []
+  | none => false
+
 def judgeStep (s : JState) (e : Ev) : JState :=
   match e with
   | .lp p v =>
@@ -234,6 +241,10 @@ def judgeStep (s : JState) (e : Ev) : JState :=
   | .inc base name _ tries =>
     match tries.find? (fun t => !safe t) with
     | some t => if safe base then s.flag "include-escapes" s!"base={showP base} name={showP name} opens {showP t}" else s
+    | none => s
+  | .il list entries =>
+    match entries.find? badIncEntry with
+    | some e => s.flag "incdir-unsafe" s!"{showP list} stores {showO e}"
     | none => s
   | .call f who _ => { s with efun := f, who := who, approvals := [] }
   | .valid w path who op v =>
